@@ -267,10 +267,12 @@ impl<S: Read> Master<S> {
             }
         }
         process = Limiter::create_process(self.cli.skip, self.cli.take, process);
+        let mut max_size = self.cli.take.map(|take| (self.cli.skip + take) as usize);
         for sorter in &self.cli.sort_by {
             let sorter = Sorter::from_str(sorter)?;
-            let max_size = self.cli.take.map(|take| (self.cli.skip + take) as usize);
             process = sorter.create_processor(process, max_size);
+            // only the sorter that feeds the limiter may drop rows
+            max_size = None;
         }
         if self.cli.unique {
             process = Uniquness::create_process(process);
